@@ -23,3 +23,4 @@ def run(ctx):
     ctx.run("C12.CODE-HASH", "R-FLOW", mem.code_hash)
     ctx.run("C12.FRESH-SOURCE", "R-WHO", mem.fresh_source)
     ctx.run("C05.CODE-READER", "R-ERRDISC", mem.code_reader)
+    ctx.run("C05.INVALIDATE-ORDER", "R-ORDER", mem.invalidate_order)
